@@ -876,7 +876,7 @@ fn liveness_check(property: &str, quick: bool) -> Check {
             opts: opts.clone(),
             menu: menu.clone(),
             prefix: vec![],
-            max_depth: if quick { 7 } else { 10 },
+            max_depth: if quick { 9 } else { 10 },
             max_devs: if quick { 2 } else { 3 },
         });
         if let Some(p) = build_prefix(&opts, |s| {
@@ -884,12 +884,15 @@ fn liveness_check(property: &str, quick: bool) -> Check {
             s.drain_all();
             true
         }) {
+            // the menu's counters include the prefix, whose election needed ticks of its own
+            let mut m = menu.clone();
+            m.max_ticks = p.iter().filter(|e| matches!(e, Event::Tick)).count() + if quick { 2 } else { 4 };
             runs.push(RunSpec {
                 name: "3v-timed-faults-under-an-established-leader-then-recovery".into(),
                 opts: opts.clone(),
-                menu: menu.clone(),
+                menu: m,
                 prefix: p,
-                max_depth: if quick { 7 } else { 10 },
+                max_depth: if quick { 8 } else { 10 },
                 max_devs: if quick { 2 } else { 3 },
             });
         }
